@@ -5,7 +5,7 @@ from common import Ctx, RULES
 from legs import run_classified_leg
 
 PID = "C09"
-COQ_FILES = ["Model/Base.v", "Gen/Tracer.v", "Model/Tracer.v", "Proofs/TracerProofs.v", "Model/TracerReplay.v", "Properties/C09.v"]
+COQ_FILES = ["Model/Base.v", "Gen/Tracer.v", "Model/Tracer.v", "Proofs/TracerProofs.v", "Model/TracerReplay.v", "Ties/TracerTie.v", "Properties/C09.v"]
 RULES[PID] = ("e2e leg c09-e2e: a seeded generator writes multi-threaded Rust debuggees: N worker threads (N in 1..64: 5% 1, 55% 2-8, 25% 9-16, 15% 17-64) "
               "each calling the #[inline(never)] targets hit_a / hit_b K times (K <= 5, 3, 2 for N <= 8, 16, 64) with seeded yield_now / spins / sleeps in "
               "between; half of the programs are creation/exit storms (2-5 waves of thread creation while earlier waves are arriving at the breakpoints, "
